@@ -294,8 +294,7 @@ func TestC05(t *testing.T) {
 	var rc authCase
 	if loadReplay(t, &rc) {
 		if msg := checkAuth(&rc); msg != "" {
-			st.Violate(msg, &rc)
-			t.Fatal(msg)
+			fail(st, t, msg, &rc)
 		}
 		return
 	}
@@ -339,13 +338,11 @@ func TestC05(t *testing.T) {
 				st.Case(nt, "fn-"+label, "fn-"+verdict)
 				if ierr == nil && rerr != nil {
 					msg := fmt.Sprintf("pegnetd accepts an entry at height %d that the reference FAT-103 validator rejects (%v)", h, rerr)
-					st.Violate(msg, map[string]interface{}{"fn": e, "h": h})
-					rt.Fatalf("%s", msg)
+					fail(st, rt, msg, map[string]interface{}{"fn": e, "h": h})
 				}
 				if label == "valid-build" && rerr == nil && ierr != nil {
 					msg := fmt.Sprintf("pegnetd rejects a properly built and signed entry at height %d: %v", h, ierr)
-					st.Violate(msg, map[string]interface{}{"fn": e, "h": h})
-					rt.Fatalf("%s", msg)
+					fail(st, rt, msg, map[string]interface{}{"fn": e, "h": h})
 				}
 			}
 		})
@@ -360,8 +357,7 @@ func TestC05(t *testing.T) {
 				st.Sample(map[string]interface{}{"kind": c.Kind, "height": c.Height, "pos": c.Pos, "mutant_content": string(c.Mutant.Content), "chain": c.Base.Summary()})
 			}
 			if msg != "" && !(c.Control && len(msg) > 8 && msg[:8] == "harness:") {
-				st.Violate(msg, c)
-				rt.Fatalf("%s", msg)
+				fail(st, rt, msg, c)
 			}
 			if msg != "" {
 				st.Label("control-without-effect")
